@@ -197,6 +197,12 @@ def newConn (netSrc netDst tpSrc tpDst : List UInt8) : Conn α :=
     that completed a datagram. -/
 def acceptReassembled (wasFragment completes : Bool) : Bool := wasFragment && completes
 
+/-- `packet`, flowsdecoder.go:229-262: a reassembled datagram is serialised and appended to `IPV4Reassembled`
+    FIRST; only then is its payload decoded as the next layer.  Whether that decode succeeds (no decoder for the
+    IP protocol, payload too short for its transport header) decides only whether a TCP segment goes on to the
+    assembler.  Result: (datagram recorded, TCP segment handed on). -/
+def onReassembled (upperLayerDecodes isTcp : Bool) : Bool × Bool := (true, upperLayerDecodes && isTcp)
+
 /-- the OLD test (before 8dc84a5a, kept for the regression theorem `Props.C19.defrag_length_regression`):
     `l := ip4.Length` of the packet just fed; the value DefragIPv4 returns for a completed datagram has
     `Length = f.Highest` = the payload length WITHOUT header (gopacket ip4defrag/defrag.go:283); fq took the
